@@ -886,6 +886,10 @@ class CallMixin:
             preds = v.preds
             return self.materialize_filter(v.base, lambda x: AND(*[self.truth(self.apply(f, [x], st, node)) for f in preds]),
                                            lambda x: x, st, node)
+        if isinstance(v, VSet) and not getattr(self, "binders", ()):
+            # list(<set>): the members in the set's iteration order - unspecified by the language (hash seeds, insertion
+            # history): an arbitrary duplicate-free enumeration of exactly the members
+            return self.set_enumeration(v, st)
         raise Unsupported(f"list() of {type(v).__name__}")
 
     def bi_tuple(self, args, kw, node, st):
